@@ -6,6 +6,7 @@ import (
 	"fmt"
 	"math"
 	"runtime/debug"
+	"sync/atomic"
 
 	"github.com/google/reftable"
 	"verif/harness/gen"
@@ -162,11 +163,22 @@ func WriteTable(t *gen.Table) (data []byte, err error) {
 // MaxRecords bounds every iteration done by the harness.
 var MaxRecords = 1 << 22
 
+// drainCalls alternates between the two common calling conventions: a fresh record per
+// NextRef/NextLog call, and one record variable reused for every call.
+var drainCalls int64
+
 func DrainRefs(it *reftable.Iterator, limit int) ([]gen.Ref, error) {
 	var out []gen.Ref
+	reuse := atomic.AddInt64(&drainCalls, 1)%2 == 0
+	var shared reftable.RefRecord
 	for {
-		var rec reftable.RefRecord
-		ok, err := it.NextRef(&rec)
+		var fresh reftable.RefRecord
+		recp := &fresh
+		if reuse {
+			recp = &shared
+		}
+		ok, err := it.NextRef(recp)
+		rec := *recp
 		if err != nil {
 			return out, err
 		}
@@ -185,9 +197,16 @@ func DrainRefs(it *reftable.Iterator, limit int) ([]gen.Ref, error) {
 
 func DrainLogs(it *reftable.Iterator, limit int) ([]gen.Log, error) {
 	var out []gen.Log
+	reuse := atomic.AddInt64(&drainCalls, 1)%2 == 0
+	var shared reftable.LogRecord
 	for {
-		var rec reftable.LogRecord
-		ok, err := it.NextLog(&rec)
+		var fresh reftable.LogRecord
+		recp := &fresh
+		if reuse {
+			recp = &shared
+		}
+		ok, err := it.NextLog(recp)
+		rec := *recp
 		if err != nil {
 			return out, err
 		}
